@@ -441,7 +441,7 @@ func Origins(v ssa.Value, opt SliceOpts) []Origin {
 				switch a := x.X.(type) {
 				case *ssa.Alloc:
 					n := 0
-					for _, st := range storesTo(a) {
+					for _, st := range reachingStores(x, a) {
 						walk(st.Val, res)
 						n++
 					}
@@ -771,4 +771,88 @@ func ReturnOperand(ret *ssa.Return, i int) ssa.Value {
 		}
 	}
 	return v
+}
+
+// acyclicReach returns the blocks reachable from b when back edges (edges to a dominator) are
+// removed: "later in the same loop iteration".
+func acyclicReach(b *ssa.BasicBlock) map[*ssa.BasicBlock]bool {
+	seen := map[*ssa.BasicBlock]bool{}
+	stack := []*ssa.BasicBlock{b}
+	for len(stack) > 0 {
+		x := stack[len(stack)-1]
+		stack = stack[:len(stack)-1]
+		if seen[x] {
+			continue
+		}
+		seen[x] = true
+		for _, s := range x.Succs {
+			if s.Dominates(x) {
+				continue // back edge
+			}
+			stack = append(stack, s)
+		}
+	}
+	return seen
+}
+
+// ControlDeps returns the If instructions on which the execution of `in` depends within one loop
+// iteration: branches with one successor from which in's block is reachable (back edges removed) and
+// one from which it is not.
+func ControlDeps(in ssa.Instruction) []*ssa.If {
+	var out []*ssa.If
+	target := in.Block()
+	for _, b := range in.Parent().Blocks {
+		ifi, ok := lastInstr(b).(*ssa.If)
+		if !ok || len(b.Succs) != 2 || b.Succs[0] == b.Succs[1] {
+			continue
+		}
+		r0 := !b.Succs[0].Dominates(b) && acyclicReach(b.Succs[0])[target]
+		r1 := !b.Succs[1].Dominates(b) && acyclicReach(b.Succs[1])[target]
+		if r0 != r1 {
+			out = append(out, ifi)
+		}
+	}
+	return out
+}
+
+// reachingStores returns the whole-cell stores to local cell a that can reach the load `at`
+// (flow-sensitive reaching definitions). If the cell escapes (captured by a closure or its address
+// passed to a call) every store is returned.
+func reachingStores(at ssa.Instruction, a *ssa.Alloc) []*ssa.Store {
+	all := storesTo(a)
+	for _, r := range *a.Referrers() {
+		switch x := r.(type) {
+		case *ssa.Store:
+			if x.Val == ssa.Value(a) {
+				return storesToAnywhere(a) // address stored somewhere
+			}
+		case *ssa.UnOp, *ssa.FieldAddr, *ssa.IndexAddr, *ssa.DebugRef:
+		default:
+			return storesToAnywhere(a) // call argument, closure binding, …
+		}
+	}
+	isStore := map[ssa.Instruction]*ssa.Store{}
+	for _, st := range all {
+		isStore[st] = st
+	}
+	var out []*ssa.Store
+	seenB := map[*ssa.BasicBlock]bool{}
+	var back func(b *ssa.BasicBlock, from int)
+	back = func(b *ssa.BasicBlock, from int) {
+		for i := from; i >= 0; i-- {
+			if st := isStore[b.Instrs[i]]; st != nil {
+				out = append(out, st)
+				return
+			}
+		}
+		for _, p := range b.Preds {
+			if seenB[p] {
+				continue
+			}
+			seenB[p] = true
+			back(p, len(p.Instrs)-1)
+		}
+	}
+	back(at.Block(), InstrIndex(at)-1)
+	return out
 }
